@@ -1,5 +1,6 @@
 import FV.Proofs.NetlistRT
 import FV.Proofs.StogInst
+import FV.Proofs.NetlistText
 /-
   C04 — netlist write → read round trip preserves the design; writing is repeatable.
 
@@ -19,6 +20,15 @@ import FV.Proofs.StogInst
   on the plain rectangles).  They carry no assumption about `create_stog`; the driver executes the same `stogC06`.
   Scalars: any linearly ordered field (centres and areas of hard modules are recomputed from the rectangles in the new
   order: equal in exact arithmetic; in floating point the harness allows 1e-9 there).
+
+  TEXT LAYER (last section).  `FV/Model/YamlText.lean` models the text itself for the subset of trees the netlist writer
+  produces: `emitText` (what `write_yaml` returns, byte for byte) and `parseText` (what `read_yaml` builds).
+  `text_parse_emit` is `parseText (emitText t) = some t` for every tree of the subset (`wfRoot`, decidable);
+  `written_tree_in_text_subset` shows that the tree written for ANY loaded netlist is in the subset (module and region
+  names of at most 122 characters: beyond that ruamel leaves the simple-key form); `text_roundtrip(_createStog)` and
+  `text_dump_stable_createStog` are the property at the level of the characters.  What stays outside is the conversion
+  between a `float` and its decimal text (`fr` = `repr`, `fv` = `float`): hypothesis `float(repr(x)) = x` on the numbers of
+  the document, and `repr` has one of the shapes `isPyFloatRepr`.
 -/
 namespace FV.C04
 open FV FV.NL
@@ -208,5 +218,120 @@ example : (match parseNetlist (stogC06 (1 / 1024 : Rat) (1 / 32)) (1 / 32) sampl
                               [[(Num.i 4, Loc.trunk), (Num.i 2, Loc.north)], []]
                 | .error _ => false)
     | .error _ => false) = true := by decide +kernel
+
+
+/-! ## the text layer: `write_yaml` / `read_yaml` on the characters -/
+
+section text
+open FV.YT
+
+/-- PARSE ∘ EMIT: the text emitted for a tree of the writer's subset is read back as that tree. -/
+theorem text_parse_emit {t : YVal String} (h : wfRoot t = true) : parseText (emitText t) = some t :=
+  parseText_emitText h
+
+/-- different documents have different texts. -/
+theorem text_emit_injective {t u : YVal String} (ht : wfRoot t = true) (hu : wfRoot u = true)
+    (h : emitText t = emitText u) : t = u := by
+  have a := text_parse_emit ht
+  rw [h, text_parse_emit hu] at a
+  exact (Option.some.inj a).symm
+
+/-- the tree `write_yaml` receives for a loaded netlist is in the subset of the text model (real `create_stog`). -/
+theorem written_tree_in_text_subset (ε εA : α) (fr : α → String) (hfr : ∀ x, isPyFloatRepr (fr x).toList = true)
+    {t : YVal α} {n : Netlist α} (h : parseNetlist (stogC06 ε εA) εA t = .ok n) (hlen : n.textOK = true) :
+    wfRoot (mapF fr (dumpNetlist n)) = true :=
+  dump_wfRoot fr hfr (stogPerm_stogC06 ε εA) h hlen
+
+/-- ROUND TRIP ON THE CHARACTERS: `Netlist(n.write_yaml())` is `n`. -/
+theorem text_roundtrip (hp : StogPerm stog) (hs : StogStable stog) (fr : α → String) (fv : String → α)
+    (hfr : ∀ x, isPyFloatRepr (fr x).toList = true) {t : YVal α} {n : Netlist α}
+    (h : parseNetlist stog εA t = .ok n) (hlen : n.textOK = true)
+    (hfv : mapF fv (mapF fr (dumpNetlist n)) = dumpNetlist n) :
+    ∃ n', loadText fv stog εA (writeText fr n) = some (.ok n') ∧ Same n' n :=
+  ⟨n, loadText_writeText hp hs fr fv hfr h hlen hfv, Same.refl n⟩
+
+/-- the same with the real `create_stog`, as an equation. -/
+theorem text_roundtrip_createStog (ε εA : α) (fr : α → String) (fv : String → α)
+    (hfr : ∀ x, isPyFloatRepr (fr x).toList = true) {t : YVal α} {n : Netlist α}
+    (h : parseNetlist (stogC06 ε εA) εA t = .ok n) (hlen : n.textOK = true)
+    (hfv : mapF fv (mapF fr (dumpNetlist n)) = dumpNetlist n) :
+    loadText fv (stogC06 ε εA) εA (writeText fr n) = some (.ok n) :=
+  loadText_writeText (stogPerm_stogC06 ε εA) (stogStable_stogC06 ε εA) fr fv hfr h hlen hfv
+
+/-- … in particular whenever `float(repr(x)) = x` for every number. -/
+theorem text_roundtrip_of_float_repr (ε εA : α) (fr : α → String) (fv : String → α)
+    (hfr : ∀ x, isPyFloatRepr (fr x).toList = true) (hinv : ∀ x, fv (fr x) = x) {t : YVal α} {n : Netlist α}
+    (h : parseNetlist (stogC06 ε εA) εA t = .ok n) (hlen : n.textOK = true) :
+    loadText fv (stogC06 ε εA) εA (writeText fr n) = some (.ok n) :=
+  text_roundtrip_createStog ε εA fr fv hfr h hlen (mapF_inverse fr fv hinv _)
+
+/-- WRITING IS REPEATABLE ON THE CHARACTERS: the reloaded design is written as the identical text. -/
+theorem text_dump_stable_createStog (ε εA : α) (fr : α → String) (fv : String → α)
+    (hfr : ∀ x, isPyFloatRepr (fr x).toList = true) {t : YVal α} {n n' : Netlist α}
+    (h : parseNetlist (stogC06 ε εA) εA t = .ok n) (hlen : n.textOK = true)
+    (hfv : mapF fv (mapF fr (dumpNetlist n)) = dumpNetlist n)
+    (h' : loadText fv (stogC06 ε εA) εA (writeText fr n) = some (.ok n')) : writeText fr n' = writeText fr n := by
+  rw [text_roundtrip_createStog ε εA fr fv hfr h hlen hfv] at h'
+  cases h'; rfl
+
+/-- `read_yaml` takes what `write_yaml` returned for YAML text (it has a line feed), never for a file name. -/
+theorem text_is_yaml_text (fr : α → String) (n : Netlist α) : isYamlText (writeText fr n) = true :=
+  writeText_isYamlText fr n
+
+/-! ### non-vacuity: `sampleDoc2` loaded with the real `create_stog`, written, read -/
+
+/-- the tree written for `sampleDoc2` once loaded (trunk first). -/
+def sampleTree : YVal Rat :=
+  .map [(.str "Modules", .map [
+          (.str "H", .map [(.str "hard", .bool true), (.str "flip", .bool true),
+                           (.str "rectangles", .seq [.seq [.int 2, .int 2, .int 4, .int 2],
+                                                     .seq [.int 1, .int 4, .int 2, .int 2]])]),
+          (.str "A", .map [(.str "area", .map [(.str "dsp", .float 2)])])]),
+        (.str "Nets", .seq [.seq [.str "A", .str "H"]])]
+
+/-- the text `write_yaml` returns for it (the only float is `2.0`). -/
+def sampleText : List Char :=
+  ("Modules:\n  H:\n    hard: true\n    flip: true\n    rectangles:\n    - - 2\n      - 2\n      - 4\n      - 2\n" ++
+   "    - - 1\n      - 4\n      - 2\n      - 2\n  A:\n    area:\n      dsp: 2.0\nNets:\n- - A\n  - H\n").toList
+
+def sampleRepr : Rat → String := fun _ => "2.0"
+def sampleFloat : String → Rat := fun _ => 2
+
+example : (match parseNetlist (stogC06 (1 / 1024 : Rat) (1 / 32)) (1 / 32) sampleDoc2 with
+    | .ok n => eqb (dumpNetlist n) sampleTree && n.textOK
+    | .error _ => false) = true := by decide +kernel
+
+example : emitText (mapF sampleRepr sampleTree) = sampleText := by decide +kernel
+example : wfRoot (mapF sampleRepr sampleTree) = true := by decide +kernel
+example : parseText sampleText = some (mapF sampleRepr sampleTree) :=
+  opt_eq_of_eqb (by decide +kernel)
+example : eqb (mapF sampleFloat (mapF sampleRepr sampleTree)) sampleTree = true := by decide +kernel
+
+/-- `text_roundtrip_createStog` applied: all its hypotheses hold for `sampleDoc2`. -/
+example : ∃ n, parseNetlist (stogC06 (1 / 1024 : Rat) (1 / 32)) (1 / 32) sampleDoc2 = .ok n ∧
+    loadText sampleFloat (stogC06 (1 / 1024 : Rat) (1 / 32)) (1 / 32) (writeText sampleRepr n) = some (.ok n) := by
+  have hk : (match parseNetlist (stogC06 (1 / 1024 : Rat) (1 / 32)) (1 / 32) sampleDoc2 with
+      | .ok n => eqb (dumpNetlist n) sampleTree && n.textOK
+      | .error _ => false) = true := by decide +kernel
+  cases hn : parseNetlist (stogC06 (1 / 1024 : Rat) (1 / 32)) (1 / 32) sampleDoc2 with
+  | error e => rw [hn] at hk; cases hk
+  | ok n =>
+    rw [hn] at hk
+    simp only [Bool.and_eq_true] at hk
+    have hd := eqb_sound _ _ hk.1
+    refine ⟨n, rfl, text_roundtrip_createStog _ _ sampleRepr sampleFloat (fun _ => show isPyFloatRepr "2.0".toList = true by decide +kernel) hn hk.2 ?_⟩
+    rw [hd]
+    exact eqb_sound _ _ (by decide +kernel)
+
+/-- texts outside the subset are refused, not guessed: a flow mapping, a tab, a comment. -/
+example : parseText "a: {b: 1}\n".toList = none := by decide +kernel
+example : parseText "a:\n\t- 1\n".toList = none := by decide +kernel
+example : parseText "a: 1 # one\n".toList = none := by decide +kernel
+/-- YAML 1.2 resolution: `yes` is a string, `true` a Boolean, `'true'` a string, `1e+22` a float. -/
+example : parseText "yes: true\nk:\n- 'true'\n- 1e+22\n- -0\n".toList =
+    some (.map [(.str "yes", .bool true), (.str "k", .seq [.str "true", .float "1e+22", .int 0])]) :=
+  opt_eq_of_eqb (by decide +kernel)
+
+end text
 
 end FV.C04
